@@ -124,6 +124,22 @@ def loop() -> asyncio.AbstractEventLoop:
     return _loop
 
 
+def _close_loop() -> None:
+    global _loop
+    if _loop is not None and not _loop.is_closed():
+        try:
+            _loop.run_until_complete(_loop.shutdown_default_executor())
+        except Exception:  # noqa: BLE001
+            pass
+        _loop.close()
+    _loop = None
+
+
+import atexit  # noqa: E402
+
+atexit.register(_close_loop)
+
+
 def call_async(fn: Callable[..., Any], *a: Any, **k: Any) -> Outcome:
     try:
         return Outcome(True, loop().run_until_complete(fn(*a, **k)))
